@@ -121,6 +121,8 @@ def meq(got, want):
 
 def verdict(ev, got):
     """None or (class, text): the implementation's answer against the specification's ret"""
+    if ev["op"] == "boxqp":
+        return boxqp_verdict(ev, got)
     if got is None:
         return "crash", "no answer (harness died)"
     if got.startswith("error") or got.startswith("?") or got.startswith("MKMODEL"):
@@ -185,6 +187,8 @@ def verdict(ev, got):
 
 def feature(ev):
     """class of the operands for the signature (no sizes: one defect, one signature)"""
+    if ev["op"] == "boxqp":
+        return "%s+%s" % (ev["warm"], "swap" if ev["swap"] else "monotone")
     A = ev["in"]["A"]
     a = ev["a"]
     f = []
@@ -205,7 +209,37 @@ def feature(ev):
     return "+".join(f)
 
 
+def boxqp_cmd(ev):
+    i = ev["in"]
+    return "boxqp %s %s %s %s %s" % (dense_arg(i["H"]), csv(i["g"]), csv(i["lo"]), csv(i["up"]), csv(ev["x0"]))
+
+
+def boxqp_verdict(ev, got):
+    if got is None:
+        return "crash", "no answer (harness died)"
+    if got.startswith("error"):
+        return "error", got[:160]
+    kv = parse(got)
+    ret = ev["ret"]
+    if kv.get("guard") != "1":
+        return "overrun", "a guard zone next to a buffer was overwritten (out-of-bounds write)"
+    want = [x / float(ret["den"]) for x in ret["num"]]
+    x = pvec(kv["x"])
+    if int(kv["ret"]) < 0:
+        return "failed", "mju_boxQP returned %s (KKT violation of the returned point %s), specification: minimiser %s, %d free" % (
+            kv["ret"], kv["kkt"], want, ret["nfree"])
+    if not veq(x, want):
+        return "point", "returned point %s (KKT violation %s), specification %s" % (x, kv["kkt"], want)
+    if int(kv["ret"]) != ret["nfree"]:
+        return "nfree", "returned %s free dimensions, specification %d" % (kv["ret"], ret["nfree"])
+    if [int(v) for v in pvec(kv["index"])] != list(ret["index"]):
+        return "index", "free set %s, specification %s" % (kv["index"], list(ret["index"]))
+    return None
+
+
 def case_lines(ev):
+    if ev["op"] == "boxqp":
+        return [boxqp_cmd(ev)]
     L = [load_cmd("A", ev["in"]["A"])]
     if "B" in ev["in"]:
         L.append(load_cmd("B", ev["in"]["B"]))
@@ -277,6 +311,8 @@ def run(ctx):
     jobs = {
         "MC": lambda: tladump.run_dump(SPEC, os.path.join(TLA, "Sparse_MC.cfg" if quick else "Sparse_Deep.cfg"), timeout=3400,
                                        coverage=True, workers=12, select=sel),
+        "Box": lambda: tladump.run_dump(os.path.join(TLA, "BoxQP.tla"), os.path.join(TLA, "BoxQP_MC.cfg" if quick else "BoxQP_Deep.cfg"),
+                                        timeout=3400, coverage=False, workers=6, select=sel),
         "Neg": lambda: tlc.run(SPEC, os.path.join(TLA, "Sparse_Neg.cfg"), timeout=900, workers=2),
         "Sim": lambda: tladump.simulate(SPEC, os.path.join(TLA, "Sparse_Sim.cfg"), num=nsim, depth=6, seed=ctx.seed + 1,
                                         timeout=3000, only=("ev",)),
@@ -292,6 +328,19 @@ def run(ctx):
             cases.append(st["ev"])
     finally:
         cleanup()
+    res, states, cleanup = out["Box"]
+    nbox = nswap = 0
+    try:
+        ctx.tlc_ok(res, "BoxQP_MC" if quick else "BoxQP_Deep")
+        for st in states():
+            cases.append(st["ev"])
+            nbox += 1
+            nswap += 1 if st["ev"]["swap"] else 0
+    finally:
+        cleanup()
+    # vacuity guard: box QPs whose active set must exchange coordinates at constant size on the way to the solution
+    if nbox < 100 or nswap < 5:
+        raise Machinery("vacuity: %d box QP calls, %d of them with an exchange of active coordinates at constant size" % (nbox, nswap))
     r = out["Neg"]
     ctx.cov["tlc_runs"].append({"name": "Sparse_Neg", "generated": r.generated, "distinct": r.distinct,
                                 "depth": r.depth, "wall_s": round(r.wall, 2), "violation": r.violation})
@@ -358,7 +407,9 @@ def run(ctx):
         what = "%s: %s" % (keys[i][:400], v[1] if g is not None else "harness died: " + crash.get(i, "?"))
         ctx.violation(sig, what, {"script": HEAD + case_lines(ev), "ev": tlc.to_py(ev)})
     ctx.cov["exhaustive"] = True
-    ctx.cov["rule"] = ("cases = every call returned in the exhaustive run over the suites of Sparse.tla: all patterns of all "
+    ctx.notes.append("box QPs: %d calls, %d with an active-set exchange at constant size" % (nbox, nswap))
+    ctx.cov["rule"] = ("box QP lattice: every non-degenerate instance of BoxQP.tla (n = 2, 3) x 4 starting points; "
+                       "cases = every call returned in the exhaustive run over the suites of Sparse.tla: all patterns of all "
                        "sizes up to 3x3%s in both layouts x every single-matrix routine (%s); all pairs of patterns of 1x3, "
                        "2x2, 1x4%s x every two-matrix routine; all lower-triangular patterns up to 4x4 x symmetric / "
                        "Cholesky / band routines with every (nband, ndense); long rows (%s) and supernodal families (%s); "
